@@ -341,6 +341,16 @@ func loadProgram(repoDir, pkgPattern, extDir string) (*Program, error) {
 					locals = append(locals, ArgDesc{Kind: "rangeidx", Name: id, Type: "int"})
 					continue
 				}
+				if id == "rangeover" {
+					// the slice a range loop iterates over (for operands that have no name)
+					if rs, ok := loops[cl.Loop-1].(*ast.RangeStmt); ok {
+						if t := p0.TypesInfo.TypeOf(rs.X); t != nil {
+							locals = append(locals, ArgDesc{Kind: "rangeover", Name: id, Type: types.TypeString(t, qualifier)})
+							continue
+						}
+					}
+					return nil, fmt.Errorf("%s: rangeover used outside a range loop", cl.Src)
+				}
 				if scope == nil {
 					continue
 				}
@@ -614,13 +624,48 @@ func loopsOf(body *ast.BlockStmt) []ast.Stmt {
 		case *ast.FuncLit:
 			return false
 		case *ast.ForStmt:
-			out = append(out, s)
+			if !neverRepeats(s.Body) {
+				out = append(out, s)
+			}
 		case *ast.RangeStmt:
-			out = append(out, s)
+			if !neverRepeats(s.Body) {
+				out = append(out, s)
+			}
 		}
 		return true
 	})
 	return out
+}
+
+// neverRepeats: the loop body always ends in break or return and has no continue of its own - such
+// a statement has no back edge in the SSA and is not a loop for the verifier (loop ordinals count
+// SSA loops).
+func neverRepeats(body *ast.BlockStmt) bool {
+	if body == nil || len(body.List) == 0 {
+		return false
+	}
+	switch l := body.List[len(body.List)-1].(type) {
+	case *ast.BranchStmt:
+		if l.Tok != token.BREAK || l.Label != nil {
+			return false
+		}
+	case *ast.ReturnStmt:
+	default:
+		return false
+	}
+	cont := false
+	ast.Inspect(body, func(n ast.Node) bool {
+		switch v := n.(type) {
+		case *ast.FuncLit, *ast.ForStmt, *ast.RangeStmt:
+			return false
+		case *ast.BranchStmt:
+			if v.Tok == token.CONTINUE {
+				cont = true
+			}
+		}
+		return true
+	})
+	return !cont
 }
 
 func loopBodyPos(s ast.Stmt) token.Pos {
